@@ -18,6 +18,9 @@ pub struct Honest {
     pub bytes: Vec<u8>,
     /// (component name, start offset) in `bytes`, in order, plus the end
     pub layout: Vec<(&'static str, usize)>,
+    /// offsets of nested headers (opening-proof depth bytes, node-vector counts, inner length
+    /// prefixes, frame-size bytes, FRI layer headers), found by walking the encoding
+    pub nested: Vec<(String, usize)>,
 }
 
 pub fn layout_of(p: &Proof) -> Vec<(&'static str, usize)> {
@@ -71,8 +74,73 @@ where
         if let ProveOutcome::Proof(p) = prove::<B, H>(&inst.spec, &inst.main, options.clone(), None) {
             let bytes = p.to_bytes();
             let layout = layout_of(&p);
-            return Some(Honest { spec: inst.spec.clone(), inst, options, proof: *p, bytes, layout });
+            let nested = nested_offsets(&bytes, &layout);
+            return Some(Honest { spec: inst.spec.clone(), inst, options, proof: *p, bytes, layout, nested });
         }
     }
     None
+}
+
+fn vint(bytes: &[u8], at: usize) -> Option<(usize, usize)> {
+    let first = *bytes.get(at)?;
+    let len = first.trailing_zeros() as usize + 1;
+    if len == 9 {
+        let v = u64::from_le_bytes(bytes.get(at + 1..at + 9)?.try_into().ok()?);
+        Some((v as usize, 9))
+    } else {
+        let mut enc = [0u8; 8];
+        enc[..len].copy_from_slice(bytes.get(at..at + len)?);
+        Some(((u64::from_le_bytes(enc) >> len) as usize, len))
+    }
+}
+
+/// header offsets inside a serialized batch Merkle proof starting at `at`
+fn batch_proof_offsets(bytes: &[u8], at: usize, tag: &str, out: &mut Vec<(String, usize)>) {
+    out.push((format!("{tag}.depth"), at));
+    out.push((format!("{tag}.node-vector-count"), at + 1));
+    if let Some((_, l)) = vint(bytes, at + 1) {
+        out.push((format!("{tag}.first-vector-length"), at + 1 + l));
+    }
+}
+
+/// walks the documented encodings of the components and returns the offsets of nested headers
+pub fn nested_offsets(bytes: &[u8], layout: &[(&'static str, usize)]) -> Vec<(String, usize)> {
+    let mut out = vec![];
+    for w in layout.windows(2) {
+        let (name, s) = (w[0].0, w[0].1);
+        if name.ends_with("queries") {
+            // Vec<u8> values, Vec<u8> opening proof
+            if let Some((vl, l1)) = vint(bytes, s) {
+                let p = s + l1 + vl;
+                out.push((format!("{name}.opening-length"), p));
+                if let Some((_, l2)) = vint(bytes, p) {
+                    batch_proof_offsets(bytes, p + l2, &format!("{name}.opening"), &mut out);
+                }
+            }
+        } else if name == "ood_frame" {
+            out.push(("ood_frame.trace-frame-size".into(), s + 2));
+            if let Some(b) = bytes.get(s..s + 2) {
+                let tl = u16::from_le_bytes([b[0], b[1]]) as usize;
+                out.push(("ood_frame.constraint-length".into(), s + 2 + tl));
+                out.push(("ood_frame.constraint-frame-size".into(), s + 2 + tl + 2));
+            }
+        } else if name == "fri_proof" {
+            let nlayers = bytes[s] as usize;
+            let mut at = s + 1;
+            for i in 0..nlayers {
+                let rd = |a: usize| bytes.get(a..a + 4).map(|b| u32::from_le_bytes(b.try_into().unwrap()) as usize);
+                let Some(vl) = rd(at) else { break };
+                out.push((format!("fri.layer{i}.values-length"), at));
+                let pa = at + 4 + vl;
+                let Some(pl) = rd(pa) else { break };
+                out.push((format!("fri.layer{i}.paths-length"), pa));
+                batch_proof_offsets(bytes, pa + 4, &format!("fri.layer{i}.opening"), &mut out);
+                at = pa + 4 + pl;
+            }
+            out.push(("fri.remainder-length".into(), at));
+            out.push(("fri.partition-exponent".into(), w[1].1 - 1));
+        }
+    }
+    out.retain(|(_, o)| *o < bytes.len());
+    out
 }
